@@ -334,3 +334,221 @@ Example C09_axes_instance :
   locate_discrete ex_percentile (lp_perm ex3_axes ex3_P) (transpose_axes ex3_axes ex3_im) =
     [mkOut [792 # 132; 528 # 132; 660 # 132]%Q 132 (Some ([366 # 132; 54 # 132; 264 # 132]%Q, 12, 132))].
 Proof. exact ex3_locate_permuted. Qed.
+
+(* ------------------------------------------------------------------------------------
+   The WHOLE integer preprocess=False pipeline, tail included (Model/LocateWhole.v, proofs
+   in Proofs/LocateWhole.v):
+     locate_whole percentile P T im  =  tail_out (lp_sep P) T (locate_discrete percentile P im)
+     tail_out sep T table            =  topn (minmass/maxsize filter (table minus where_close's rows))
+   where_close, the row dropping and the filters are the definitions of the C08 model
+   (Model/LocateTail.v) applied to refine's rows ([C09_tail_is_the_C08_tail]).  Of two rows closer
+   than separation where_close (find.py:42-51) drops the one of smaller mass; on EQUAL mass
+   the one with the smaller sum of rescaled coordinates; on equal sums the one that comes
+   first in the table.
+     T = (t_minmass, t_maxsize, t_topn);  t_maxsize = None | Some (maxsize^2)  (the model's
+         size entry is size^2), only meaningful for an isotropic diameter (else no 'size' column)
+     no_tie sep T table = true   (a boolean, computed from refine's table of the FIRST image):
+         no two rows closer than separation have equal mass, and, when topn is given, no
+         two rows that reach the topn step have equal mass (argmax/argsort would decide by
+         row order).
+   The open findings F15 (transposition) and F17 (translation: the float sums of the tie
+   rule round differently at another offset) are exactly such ties: under no_tie the tie
+   rule is never consulted.  The static error ep (float noise statistics) is not modelled. *)
+From TP Require Import Model.LocateTail Model.LocateWhole Model.LocateWholeCheck Proofs.LocateWhole.
+Open Scope Z_scope.
+
+(* (13) Translation, whole pipeline: under the premises of (3) and without ties, the final
+   table of the moved image consists of the same rows, positions moved by exactly d. *)
+Theorem C09_locate_whole_moved :
+  forall (percentile : list Z -> Q),
+    (forall l l', Permutation l l' -> percentile l = percentile l') ->
+    (forall l, (forall v, In v l -> 0 <= v) -> (0 <= percentile l)%Q) ->
+  forall d im1 im2 P T,
+    moved d im1 im2 ->
+    length d = length (shape im1) ->
+    length (lp_sep P) = length (shape im1) -> length (lp_margin P) = length (shape im1) ->
+    length (lp_radius P) = length (shape im1) ->
+    Forall (fun s => 1 <= s) (sizes_of im1 (lp_sep P)) ->
+    (forall p, 0 <= pix im1 p) ->
+    content_inside (lp_margin P) im1 -> content_inside (lp_margin P) im2 ->
+    content_has_room P d im1 im2 ->
+    no_tie (lp_sep P) T (locate_discrete percentile P im1) = true ->
+    exists rows, Permutation (locate_whole percentile P T im2) rows /\
+                 Forall2 (row_moved d) (locate_whole percentile P T im1) rows.
+Proof. exact locate_whole_moved. Qed.
+Print Assumptions C09_locate_whole_moved.
+
+(* (14) Any axis order, whole pipeline: for ANY integer image, without ties, the final
+   table of np.transpose(image, axes) (per-axis parameters in the same order) consists of
+   the same rows, every row permuted.  maxsize requires an isotropic diameter. *)
+Theorem C09_locate_whole_axes_permuted :
+  forall (percentile : list Z -> Q),
+    (forall l l', Permutation l l' -> percentile l = percentile l') ->
+  forall axes im1 im2 P T,
+    Permutation axes (seq 0 (length (shape im1))) -> axes_permuted axes im1 im2 ->
+    length (lp_sep P) = length (shape im1) -> length (lp_margin P) = length (shape im1) ->
+    length (lp_radius P) = length (shape im1) ->
+    Forall (fun s => 1 <= s) (sizes_of im1 (lp_sep P)) ->
+    t_maxsize T = None \/ isotropic (lp_radius P) = true ->
+    no_tie (lp_sep P) T (locate_discrete percentile P im1) = true ->
+    exists rows, Permutation (locate_whole percentile (lp_perm axes P) T im2) rows /\
+                 Forall2 (row_permuted axes) (locate_whole percentile P T im1) rows.
+Proof. exact locate_whole_axes. Qed.
+Print Assumptions C09_locate_whole_axes_permuted.
+
+(* (15) F15 in the model: WITHOUT no_tie (14) fails.  Two equal single-pixel peaks at (4,6) and
+   (6,4) of an 11x11 image, separation 4: refine's table is [(4,6); (6,4)], both of mass 9;
+   every other premise of (14) holds; the image keeps (6,4), the transposed image keeps
+   (6,4) as well, which is not the transposed row. *)
+Theorem C09_whole_tie_refuted :
+  Permutation nt_axes (seq 0 (length (shape tie_im))) /\
+  axes_permuted nt_axes tie_im (transpose_axes nt_axes tie_im) /\
+  length (lp_sep nt_P) = length (shape tie_im) /\ length (lp_margin nt_P) = length (shape tie_im) /\
+  length (lp_radius nt_P) = length (shape tie_im) /\
+  Forall (fun s => 1 <= s) (sizes_of tie_im (lp_sep nt_P)) /\
+  (t_maxsize tie_T = None \/ isotropic (lp_radius nt_P) = true) /\
+  no_tie (lp_sep nt_P) tie_T (locate_discrete ex_percentile nt_P tie_im) = false /\
+  map o_pos (locate_discrete ex_percentile nt_P tie_im) = [[36 # 9; 54 # 9]; [54 # 9; 36 # 9]]%Q /\
+  map o_mass (locate_discrete ex_percentile nt_P tie_im) = [9; 9] /\
+  map o_pos (locate_whole ex_percentile nt_P tie_T tie_im) = [[54 # 9; 36 # 9]]%Q /\
+  map o_pos (locate_whole ex_percentile (lp_perm nt_axes nt_P) tie_T (transpose_axes nt_axes tie_im)) = [[54 # 9; 36 # 9]]%Q /\
+  ~ exists rows, Permutation (locate_whole ex_percentile (lp_perm nt_axes nt_P) tie_T (transpose_axes nt_axes tie_im)) rows /\
+                 Forall2 (row_permuted nt_axes) (locate_whole ex_percentile nt_P tie_T tie_im) rows.
+Proof. exact whole_tie_refuted. Qed.
+Print Assumptions C09_whole_tie_refuted.
+
+(* (16) the ingredients of (13), (14), for any table of refine rows:
+   (a) without ties among close rows, duplicate removal keeps exactly the rows that have no
+       strictly more massive row closer than separation (an order-free description);
+   (b) without ties the final table does not depend on the order of refine's table;
+   (c) the rows kept are the rows the C08 model of the tail keeps (scale factor 1). *)
+Theorem C09_dedupe_without_ties : forall sep table,
+  no_close_tie sep table = true ->
+  dedupe_out sep table =
+  if forallb (Qltb 0) sep then filter (fun x => negb (dominated sep table x)) table else table.
+Proof. intros sep table H. apply dedupe_out_no_tie, no_close_tie_iff, H. Qed.
+Print Assumptions C09_dedupe_without_ties.
+
+Theorem C09_tail_order_independent : forall sep T table table',
+  Permutation table table' -> no_tie sep T table = true ->
+  Permutation (tail_out sep T table) (tail_out sep T table').
+Proof. exact tail_out_perm. Qed.
+Print Assumptions C09_tail_order_independent.
+
+Theorem C09_tail_is_the_C08_tail : forall sep T table,
+  map to_row (tail_out sep T table) =
+  map snd (select (t_minmass T) (t_maxsize T) (t_topn T) (dedupe sep (map to_row table))).
+Proof. exact tail_out_is_C08_tail. Qed.
+Print Assumptions C09_tail_is_the_C08_tail.
+
+(* Non-vacuity of (13), (14): five single-pixel peaks A=9, B=7 (three pixels from A, separation
+   4), E=6, C=5, D=3 in a 9x10 content, pasted at (4,5) into a 20x21 canvas and at (7,4) into a
+   22x20 canvas; minmass 7/2, topn 2.  All premises hold incl. no_tie; refine's table has five
+   rows, where_close drops B, minmass drops D, topn drops C; E and A remain, moved by
+   (3,-1) resp. with swapped coordinates. *)
+Example C09_whole_translation_premises_satisfiable :
+  moved nt_d nt_im1 nt_im2 /\
+  length nt_d = length (shape nt_im1) /\
+  length (lp_sep nt_P) = length (shape nt_im1) /\ length (lp_margin nt_P) = length (shape nt_im1) /\
+  length (lp_radius nt_P) = length (shape nt_im1) /\
+  Forall (fun s => 1 <= s) (sizes_of nt_im1 (lp_sep nt_P)) /\
+  (forall p, 0 <= pix nt_im1 p) /\
+  content_inside (lp_margin nt_P) nt_im1 /\ content_inside (lp_margin nt_P) nt_im2 /\
+  content_has_room nt_P nt_d nt_im1 nt_im2 /\
+  no_tie (lp_sep nt_P) nt_T (locate_discrete ex_percentile nt_P nt_im1) = true.
+Proof. exact nt_moved_premises. Qed.
+
+Example C09_whole_axes_premises_satisfiable :
+  Permutation nt_axes (seq 0 (length (shape nt_im1))) /\
+  axes_permuted nt_axes nt_im1 (transpose_axes nt_axes nt_im1) /\
+  length (lp_sep nt_P) = length (shape nt_im1) /\ length (lp_margin nt_P) = length (shape nt_im1) /\
+  length (lp_radius nt_P) = length (shape nt_im1) /\
+  Forall (fun s => 1 <= s) (sizes_of nt_im1 (lp_sep nt_P)) /\
+  (t_maxsize nt_T = None \/ isotropic (lp_radius nt_P) = true) /\
+  no_tie (lp_sep nt_P) nt_T (locate_discrete ex_percentile nt_P nt_im1) = true.
+Proof. exact nt_axes_premises. Qed.
+
+Example C09_whole_instance :
+  map o_mass (locate_discrete ex_percentile nt_P nt_im1) = [9; 6; 7; 5; 3] /\
+  map o_mass (dedupe_out (lp_sep nt_P) (locate_discrete ex_percentile nt_P nt_im1)) = [9; 6; 5; 3] /\
+  locate_whole ex_percentile nt_P nt_T nt_im1 =
+    [mkOut [30 # 6; 78 # 6]%Q 6 (Some ([0 # 6]%Q, 6, 6)); mkOut [45 # 9; 72 # 9]%Q 9 (Some ([0 # 9]%Q, 9, 9))] /\
+  locate_whole ex_percentile nt_P nt_T nt_im2 =
+    [mkOut [48 # 6; 72 # 6]%Q 6 (Some ([0 # 6]%Q, 6, 6)); mkOut [72 # 9; 63 # 9]%Q 9 (Some ([0 # 9]%Q, 9, 9))] /\
+  locate_whole ex_percentile (lp_perm nt_axes nt_P) nt_T (transpose_axes nt_axes nt_im1) =
+    [mkOut [78 # 6; 30 # 6]%Q 6 (Some ([0 # 6]%Q, 6, 6)); mkOut [72 # 9; 45 # 9]%Q 9 (Some ([0 # 9]%Q, 9, 9))].
+Proof. exact nt_instance. Qed.
+
+(* ------------------------------------------------------------------------------------
+   batch over a worker pool with chunking (Model/LocateWhole.batch_pool): Pool.imap cuts the
+   tasks 0..n-1 into chunks of c consecutive tasks; chunks complete in the order [csched]
+   (every chunk completes); [seen i] says whether locate, in the worker that ran task i,
+   saw the frame's frame_no attribute.  The parent process reads frames[i].frame_no itself
+   (feature.py:565-575).  The number of workers only influences csched and seen. *)
+
+(* (17) any chunk size, any completion order, attribute seen by any subset of the tasks:
+   the table is locate on each frame, tagged with the frame's own frame_no when it has one
+   (else its position), concatenated in frame order. *)
+Theorem C09_batch_pool_is_tagged_concatenation :
+  forall (frame row : Type) (locate : frame -> list row) (frame_no : frame -> option nat) c csched seen frames,
+    (0 < c)%nat -> (forall k, (k * c < length frames)%nat -> In k csched) ->
+    batch_pool frame row locate frame_no c csched seen frames = tagged_from frame row locate frame_no 0 frames.
+Proof. exact batch_pool_spec. Qed.
+Print Assumptions C09_batch_pool_is_tagged_concatenation.
+
+(* (18) frames that all carry a number: every row is tagged with ITS FRAME'S number; the
+   position of the frame in the sequence handed to batch appears nowhere
+   (tagged_own no frames = flat_map (fun f => map (fun x => (x, no f)) (locate f)) frames). *)
+Theorem C09_batch_tags_are_frame_numbers :
+  forall (frame row : Type) (locate : frame -> list row) (frame_no : frame -> option nat) (no : frame -> nat)
+         c csched seen frames,
+    (0 < c)%nat -> (forall k, (k * c < length frames)%nat -> In k csched) ->
+    (forall f, In f frames -> frame_no f = Some (no f)) ->
+    batch_pool frame row locate frame_no c csched seen frames = tagged_own frame row locate no frames.
+Proof. exact batch_pool_own_numbers. Qed.
+Print Assumptions C09_batch_tags_are_frame_numbers.
+
+(* (19) two pools (different worker counts / chunk sizes / completion orders / attribute
+   visibility) and the in-process run return the same table *)
+Theorem C09_batch_pool_independent :
+  forall (frame row : Type) (locate : frame -> list row) (frame_no : frame -> option nat)
+         c csched seen c' csched' seen' seen0 frames,
+    (0 < c)%nat -> (forall k, (k * c < length frames)%nat -> In k csched) ->
+    (0 < c')%nat -> (forall k, (k * c' < length frames)%nat -> In k csched') ->
+    batch_pool frame row locate frame_no c csched seen frames = batch_pool frame row locate frame_no c' csched' seen' frames /\
+    batch_pool frame row locate frame_no c csched seen frames = batch_map frame row locate frame_no seen0 frames.
+Proof. exact batch_pool_independent. Qed.
+Print Assumptions C09_batch_pool_independent.
+
+(* (20) a sub-clip of a numbered movie, run on its own (with any pool), yields exactly the
+   segment of the full movie's table *)
+Theorem C09_batch_subclip :
+  forall (frame row : Type) (locate : frame -> list row) (frame_no : frame -> option nat) (no : frame -> nat)
+         c csched seen c' csched' seen' before clip after,
+    (0 < c)%nat -> (forall k, (k * c < length (before ++ clip ++ after))%nat -> In k csched) ->
+    (0 < c')%nat -> (forall k, (k * c' < length clip)%nat -> In k csched') ->
+    (forall f, In f (before ++ clip ++ after) -> frame_no f = Some (no f)) ->
+    batch_pool frame row locate frame_no c csched seen (before ++ clip ++ after) =
+    tagged_own frame row locate no before ++
+    batch_pool frame row locate frame_no c' csched' seen' clip ++
+    tagged_own frame row locate no after.
+Proof. exact batch_pool_subclip. Qed.
+Print Assumptions C09_batch_subclip.
+
+(* Non-vacuity of (17)-(19): frames numbered 25, 24, 23 (a reversed sub-clip), chunks of two
+   completing in the order 1, 0, the attribute seen only by the even tasks *)
+Example C09_batch_pool_instance :
+  batch_pool nat nat (fun n => seq 0 (n - 22)) (fun n => Some n) 2 [1; 0]%nat (fun i => Nat.even i) [25; 24; 23]%nat
+  = [(0, 25); (1, 25); (2, 25); (0, 24); (1, 24); (0, 23)]%nat.
+Proof. exact ex_batch_pool. Qed.
+
+(* (21) the correspondence check of the whole pipeline run by vp/props/c09.py on locate's own
+   final tables (Model/LocateWholeCheck.check_whole) is sound: code 0 means that the case
+   has no tie and that locate's table agrees row by row with the model's
+   (row_agrees: every position within 2^-30, mass exactly). *)
+Theorem C09_whole_check_sound : forall thr P T im rows,
+  check_whole thr P T im rows = 0%N ->
+  no_tie (lp_sep P) T (locate_discrete (fun _ => thr) P im) = true /\
+  Forall2 row_agrees (locate_whole (fun _ => thr) P T im) rows.
+Proof. exact check_whole_sound. Qed.
+Print Assumptions C09_whole_check_sound.
